@@ -173,6 +173,9 @@ TypeOps make_ops() {
   VF_W(WBoundedInner<WPed>);
   VF_W(WBoundedInner<WCex>, false, true);
   VF_W(WBoundedInner<WFd>, true);
+#ifdef THOROUGH
+  VF_W(WFile, true);
+#endif
 #undef VF_W
 #define VF_R(Rig, bounded) AddR<(caps & Rig::lacks) == 0, Rig, T, H>::go(t, bounded)
   VF_R(RBuf, true);
@@ -191,6 +194,11 @@ TypeOps make_ops() {
   VF_R(RBF, true);
   VF_R(RBBH, true);
   VF_R(RBPH, true);
+#ifdef THOROUGH
+  VF_R(RFile, false);
+  using RBFile = RBounded<RFile>;
+  VF_R(RBFile, true);
+#endif
 #undef VF_R
   t.probe_write = [](const void* p, ProbeWriter& w) -> int {
     nop::Serializer<ProbeWriter*> s{&w};
